@@ -3,6 +3,7 @@ Registration of the classes modelled outside `Core.lean` (one line per class; th
 lives in `IsobarV/Pat/Cls/<Group>.lean`).
 -/
 import IsobarV.Pat.Step
+import IsobarV.Pat.Cls.Chance
 import IsobarV.Pat.Cls.Seq1
 import IsobarV.Pat.Cls.Seq2
 import IsobarV.Pat.Cls.Scalar
@@ -46,6 +47,20 @@ def clsStepExt (c : Cls) : Option ClsStep :=
   | .midiNoteToFrequency => some (stepMidi powApprox)
   | .tri => some stepTri
   | .saw => some stepSaw
+  | .white => some stepWhite
+  | .brown => some stepBrown
+  | .coin => some stepCoin
+  | .randomWalk => some stepWalk
+  | .choice => some stepChoice
+  | .sample => some stepSample
+  | .shuffle => some stepShuffle
+  | .shuffleInput => some stepShuffleInput
+  | .skip => some stepSkip
+  | .flipFlop => some stepFlipFlop
+  | .switchOne => some stepSwitchOne
+  | .randomExponential => some stepExp
+  | .randomImpulseSequence => some stepRIS
+  | .markov => some stepMarkov
   | _ => Option.none
 
 /-- Classes whose `__next__` calls `reset()` on a sub-pattern: their step function receives the generic
@@ -81,6 +96,17 @@ def clsResetExt (c : Cls) : Option (St → St) :=
   | .mapEnumerated => some resetMapEnumerated
   | .tri => some resetOsc
   | .saw => some resetOsc
+  | .white => some resetWhite
+  | .brown => some resetBrown
+  | .coin => some resetCoin
+  | .randomWalk => some resetWalk
+  | .shuffle => some resetShuffle
+  | .shuffleInput => some resetShuffleInput
+  | .skip => some resetSkip
+  | .flipFlop => some resetFlipFlop
+  | .switchOne => some resetSwitchOne
+  | .randomImpulseSequence => some resetRIS
+  | .markov => some resetMarkov
   | _ => Option.none
 
 end IsobarV.Pat
